@@ -239,6 +239,10 @@ func workMain(fs *flag.FlagSet, args []string) {
 				if *deadline > 0 && k%64 == 0 && time.Now().Unix() >= *deadline+30 {
 					break
 				}
+				if sinceGC++; sinceGC >= 32 {
+					collectGarbage()
+					sinceGC = 0
+				}
 				t2 := rt.NewTape(s)
 				t2.Override = map[string]int{"config.faulty": 1, "faultpos": k}
 				rec2 := len(o.Samples) < 3 && *w == 0 && k == L/2
